@@ -225,7 +225,30 @@ pub fn history(ctx: &mut Ctx) {
                 }));
             }
             let argv: Vec<&str> = argv_s.iter().map(|s| s.as_str()).collect();
+            // byte-level: the files of the archive as they are before the step (the part chain, or the single file)
+            let files_before: Vec<(String, Vec<u8>)> = {
+                let mut v = vec![];
+                if archive_arg == "a.pna" { if let Ok(b) = std::fs::read(sbx.path("a.pna")) { v.push(("a.pna".to_string(), b)); } }
+                else { for i in 1.. { let n = format!("a.part{i}.pna"); match std::fs::read(sbx.path(&n)) { Ok(b) => { let next = crate::refdec::strict_archive(&b, vec![], true).map(|ra| ra.has_next).unwrap_or(false); v.push((n, b)); if !next { break; } } Err(_) => break } } }
+                v
+            };
+            let is_append = argv_s.iter().any(|a| a == "append");
             let r = run_pna(&sbx, &sbx.root, &argv, None, 60, &[]);
+            if is_append && r.ok() && !files_before.is_empty() {
+                // `append` adds to the end: every byte that was there stays where it was — all parts but the last are untouched, the
+                // last keeps everything up to its end marker (the 12 bytes of AEND are what the new entries overwrite)
+                ctx.oracle_eval();
+                let last = files_before.len() - 1;
+                for (i, (n, old)) in files_before.iter().enumerate() {
+                    let now = std::fs::read(sbx.path(n)).unwrap_or_default();
+                    let keep = if i == last { old.len().saturating_sub(12) } else { old.len() };
+                    if now.len() < keep || now[..keep] != old[..keep] || (i != last && now.len() != old.len()) {
+                        ctx.violation("C11", "append changed bytes of the archive that were already there (the previous entries are not 'unchanged')", json!({"history":steps,"file":n,"old_len":old.len(),"new_len":now.len(),"first_difference":now.iter().zip(old.iter()).position(|(a, b)| a != b)}));
+                        break;
+                    }
+                }
+                ctx.count("append:byte-prefix-checked");
+            }
             steps.push(json!({"argv": argv_s}));
             ctx.count(&format!("op:{}", argv_s.iter().find(|a| ["append", "update", "delete"].contains(&a.as_str())).cloned().unwrap_or_default()));
             ctx.oracle_eval();
